@@ -445,17 +445,20 @@ def _x_cases(x: T, ts: T, st: T, view, timed_only: bool = False) -> bool:
             if a.op == "cmp" and a.args[0] in ("Is", "IsNot") and \
                     a.args[1] is st and a.args[2] is tm.NONE:
                 return start == (a.args[0] == "IsNot")
+            if is_call_to(a, ".any", "numpy.any"):
+                # "some timestamp is repeated": the property's trajectories
+                # have strictly increasing stamps, a special treatment of
+                # repeated ones is not taken
+                inner = tm.method_recv(a) if tm.callee_name(a) == ".any" \
+                    else (a.args[1][0] if a.args[1] else None)
+                s1 = tm.sub(ts, T("slice", const(1), tm.NONE, tm.NONE))
+                s0 = tm.sub(ts, T("slice", tm.NONE, const(-1), tm.NONE))
+                if inner is not None and inner.op == "cmp" and \
+                        inner.args[0] in ("Eq", "LtE") and \
+                        {inner.args[1], inner.args[2]} == {s1, s0}:
+                    return False
             return None
-        t = x
-        for _ in range(6):
-            n = tm.select(t, assign)
-            if n.op == "sub" and n.args[0].op == "ite":
-                # a view taken of a conditional value
-                n = tm.sub(tm.select(n.args[0], assign), n.args[1])
-            if n is t:
-                break
-            t = n
-        return strip_asarray(t)
+        return strip_asarray(tm.deep_select(x, assign))
     ok = case(True, True) is view(T("binop", "Sub", ts, st)) and \
         case(True, False) is view(ts)
     if not timed_only:
@@ -517,6 +520,17 @@ def _time_axes(ctx, prog):
     ctx.require(len(plots) == 1, "speeds: plot call not found")
     x, y = plots[0].data["args"][:2]
     s1 = T("slice", const(1), tm.NONE, tm.NONE)
+    def increasing(a: T):
+        if is_call_to(a, ".any", "numpy.any"):
+            inner = tm.method_recv(a) if tm.callee_name(a) == ".any" else (
+                a.args[1][0] if a.args[1] else None)
+            s0 = tm.sub(ts, T("slice", tm.NONE, const(-1), tm.NONE))
+            if inner is not None and inner.op == "cmp" and \
+                    inner.args[0] in ("Eq", "LtE") and \
+                    {inner.args[1], inner.args[2]} == {tm.sub(ts, s1), s0}:
+                return False
+        return None
+    y = tm.deep_select(y, increasing)
     ok = _x_cases(x, ts, st, lambda t: tm.sub(t, s1), timed_only=True) and \
         y is tm.attr(tr, "speeds")
     ctx.ob("C20.4", plots[0], ok,
